@@ -439,11 +439,19 @@ def oracle(p):
                     except Exception as e:  # noqa
                         fail(f"C04:ImageBatch.{meth}:negative-levels:raises:{type(e).__name__}", f"raises {type(e).__name__}: {str(e)[:140]}",
                              grid_flag=flag, ac=ac, D=D)
-    # ---- defect candidates reported to the lead (proposed patch: build/C04_fix_proposal2.diff); evaluated only with
-    # VERIF_C04_CANDIDATES=1 until the lead has decided between repair and recorded finding ----
-    cand = os.environ.get("VERIF_C04_CANDIDATES", "0") == "1"
-    # pyramid with a given finest-level spacing: level 0 is the ramp on its grid inside the hull of the original samples
-    for D in ((2, 3) if cand else ()):
+    # a flow field created from an image batch keeps the grid of every image (regression check)
+    try:
+        ga, gb = Grid(size=(4, 3), center=(0.0, 0.0)), Grid(size=(4, 3), center=(5.0, 7.0), spacing=(0.5, 2.0))
+        ff = FlowFields(ImageBatch(torch.zeros(2, 2, 3, 4), [ga, gb]))
+        counts["probes"] += 1
+        if len(ff.grids()) != 2 or not (ff.grids()[0] == ga and ff.grids()[1] == gb):
+            fail("C04:FlowFields:from-ImageBatch:per-image-grids", "FlowFields(ImageBatch) does not keep the sampling grid of each image: centres "
+                 f"{[g_.center().tolist() for g_ in ff.grids()]} instead of [[0, 0], [5, 7]]")
+    except Exception as e:  # noqa
+        fail(f"C04:FlowFields:from-ImageBatch:raises:{type(e).__name__}", f"raises {type(e).__name__}: {str(e)[:140]}")
+    # pyramid with a given finest-level spacing (regression check of the repaired else-branch): level 0 is the ramp on its grid
+    # inside the hull of the original samples
+    for D in (2, 3):
         for flag in (True, False):
             for sp in (0.5, 1.5):
                 try:
@@ -489,8 +497,7 @@ def oracle(p):
                              grids=[gd], target=td_)
                 except Exception as e:  # noqa
                     fail(f"C04:FlowFields.sample:{axn}:raises:{type(e).__name__}", f"raises {type(e).__name__}: {str(e)[:140]}", grids=[gd], target=td_)
-            if not cand:
-                continue
+            # inherited grid-changing operations (recorded finding: vectors w.r.t. GRID / CUBE / CUBE_CORNERS axes are not rescaled)
             ops = [("crop", lambda x: x.crop(num=[2, 2] + [0] * (2 * D - 2))), ("pad", lambda x: x.pad(num=[2, 0] + [0] * (2 * D - 2))),
                    ("resize", lambda x: x.resize([4, 3, 2][:D])), ("downsample", lambda x: x.downsample(1, sigma=0)),
                    ("avg_pool", lambda x: x.avg_pool(2)), ("narrow", lambda x: x.narrow(x.ndim - 1, 1, 4)),
